@@ -41,6 +41,7 @@ fn item(ctx: &Ctx, i: usize, rep: &mut Report) {
     let snap0 = pdatastructs::verif::snapshot();
     let every = if n <= 3000 { 1 } else { 97 };
     let use_extend = r.chance(0.4);
+    let clone_at: Option<usize> = if r.chance(0.4) { Some(if r.chance(0.5) { r.below(k as u64 + 2) as usize } else { r.below(n as u64 + 1) as usize }) } else { None };
     let mut xr = FastRng::new(r.next());
     let res = guarded(|| -> Option<(String, String)> {
         let mut s: ReservoirSampling<u32, CtlRng> = ReservoirSampling::new(k, rng);
@@ -61,6 +62,9 @@ fn item(ctx: &Ctx, i: usize, rep: &mut Report) {
         }
         let mut fed = 0usize;
         while fed < n {
+            if clone_at == Some(fed) && round == 0 {
+                s = s.clone(); // continue on a clone (also while the reservoir is still filling)
+            }
             if use_extend && xr.chance(0.02) {
                 // feed a run through Extend with an iterator whose size hint over-estimates (filter)
                 let l = (1 + xr.below(60) as usize).min(n - fed);
